@@ -17,10 +17,17 @@ Correspondence (model `MirModel.Chord.*` vs the real `mir_eval.chord`):
   join        join on recombined / damaged parts
   primitives  pitch_class_to_semitone, scale_degree_to_semitone, scale_degree_to_bitmap, quality_to_bitmap,
               reduce_extended_quality on table keys and arbitrary strings
+  gen_chordfn the definitions REGENERATED from the source on this run (lean/MirGen/ChordFns.lean, harness/translate/
+              scalars_chordfn.py; driver op gen.chordfn) of validate_chord_label / split / join / encode /
+              reduce_extended_quality / scale_degree_to_bitmap (any length) / quality_to_bitmap vs the real functions on the
+              same label streams (valid, single-fault, accidental runs of 11..61), damaged join parts, arbitrary strings;
+              Props/C10_GenFns.lean proves them equal to the hand-written models, so this suite checks the translator and
+              its run-time library (MirModel/PyChord.lean), the suites above check the models
 Oracle (real code only): nothing but InvalidChordException escapes validate/split/encode for ANY string;
 acceptance = the documented grammar; root/bitmap/bass ranges and the bass bit; N/X sentinels; the bitmap is the
 documented one (hand-transcribed shorthand table, added/omitted degrees, extended-chord reduction);
-encode(join(*split(l))) == encode(l).
+encode(join(*split(l))) == encode(l); join of a LIST of extensions is the documented rendering root[:quality][(e1,..,en)][/bass]
+(extensions in the order given) or InvalidChordException.
 """
 import itertools
 
@@ -32,9 +39,11 @@ import mir_eval.chord as chord
 from core import Case
 
 PID = "C10"
-LEAN_MODULES = ["MirProofs.Props.C10", "MirProofs.Props.C10_Regex", "MirProofs.Props.C10_Gen"]
+LEAN_MODULES = ["MirProofs.Props.C10", "MirProofs.Props.C10_Regex", "MirProofs.Props.C10_Gen", "MirProofs.Props.C10_GenFns"]
 # C10_Gen: pitch_class_to_semitone / scale_degree_to_semitone REGENERATED from the source = the hand-written models
-TRANSLATOR_PARTS = ["tables", "regex", "scalars_chord"]
+# C10_GenFns: validate_chord_label / split / join / encode / reduce_extended_quality / scale_degree_to_bitmap / quality_to_bitmap
+# REGENERATED from the source (part `chordfns`) = the hand-written models
+TRANSLATOR_PARTS = ["tables", "regex", "scalars_chord", "chordfns"]
 RULE = ("re_match: the label streams below + every string of length <= 3 (quick) / 4 (thorough) over 19 characters + "
         "labels with newline / NUL / CR / U+0085 / U+2028 / non-ASCII look-alikes appended, prepended or embedded + accidental "
         "runs of 50..4000 characters (pure, mixed, wrongly terminated) + degree lists of up to 60 items (valid) and up to 5 "
@@ -52,7 +61,11 @@ ASSUMPTIONS = ["Python's `re` engine implements the regular-expression semantics
                "harness/translate/regex.py reads the pattern, the (absent) flags and the method (`match`) from chord.py's "
                "AST and parses the pattern with Python's own `re._parser`; it fails closed on anything else",
                "Python set iteration order is unobservable by encode (bitmap sums commute; proved for every "
-               "permutation in join_split_encode)"]
+               "permutation in join_split_encode; for the translated loop, value AND exception: C10_GenFns.encode_loop_order_irrelevant)",
+               "harness/translate/scalars_chordfn.py (the subset and the ownership discipline in its docstring) and the run-time "
+               "library lean/MirModel/PyChord.lean read str.split(c) / c.join / str.strip() / set / dict.get / list item stores / "
+               "np.array / += / v[i] = c / (v > 0).astype the way Python and NumPy do; validated on every run by suite gen_chordfn "
+               "(generated definitions vs the real functions), not proved"]
 UNPROVED = []        # regex = grammar is now a theorem about the regenerated pattern (Props/C10_Regex.lean: regex_iff_grammar)
 EXHAUSTIVE = {"quick": False, "thorough": True}
 
@@ -726,8 +739,100 @@ def suite_gen_primitives(rng, tier, shard, nshards):
                    tag="gen scale_degree_to_semitone", info=info)
 
 
+
+# ---- the label functions as REGENERATED from the source (lean/MirGen/ChordFns.lean, harness/translate/scalars_chordfn.py) ----
+
+def _gen_label_cases(s, tag, flags=((False, False), (False, True), (True, False), (True, True))):
+    nt = _accept(s)
+    info = {"label": s}
+    yield Case("gen.chordfn", ["validate_chord_label", s], lambda s=s: chord.validate_chord_label(s),
+               tag=tag + ":gen validate_chord_label", info=info, nontrivial=nt)
+    for r in sorted(set(f[0] for f in flags)):
+        yield Case("gen.chordfn", ["split", s, r], lambda s=s, r=r: _split(s, r), tag=tag + ":gen split",
+                   info=dict(info, reduce=r, strict=False), nontrivial=nt, post=_post_split)
+    for r, sb in flags:
+        yield Case("gen.chordfn", ["encode", s, r, sb], lambda s=s, r=r, sb=sb: _encode(s, r, sb), tag=tag + ":gen encode",
+                   info=dict(info, reduce=r, strict=sb), nontrivial=nt)
+
+
+def _gen_join_case(root, q, e, bass, tag):
+    return Case("gen.chordfn", ["join", root, q, e, bass],
+                lambda root=root, q=q, e=e, bass=bass: chord.join(root, q, e, bass),
+                tag="gen join:" + tag, info={"root": root, "quality": q, "extensions": e, "bass": bass})
+
+
+def suite_gen_chordfn(rng, tier, shard, nshards):
+    """driver op `gen.chordfn`: the GENERATED definitions of validate_chord_label / split / join / encode /
+    reduce_extended_quality / scale_degree_to_bitmap / quality_to_bitmap against the real functions, on the label streams
+    of the other suites (valid, single-fault, long accidental runs) and on arbitrary strings for the primitives
+    (rotate_bitmap_to_root, same generated file: suite gen_chordfn.rotate of C11)"""
+    fixed = ["N", "X", "C", "N\n", "X\n", "C\n", "C:maj\n", "C/5\n", "C:(3)\n", "", "C:(*3)", "C:maj(*3,3)", "C:maj(3,3)",
+             "C:aug7", "C:maj11", "C:maj/2", "C/b1", "C/1", "C:maj/1", "Cbbbbbbbbbbbbb", "C/bbbbbbbbbbbbbb1", "B#:13(*1)/13",
+             "C:1(*1)", "C:5(*1,*5)/5", "C:maj(bbbbbbbbbbbbb1)", "C:(bbbbbbbbbbbbbb3)", "C:maj(*bbbbbbbbbbbbb1)",
+             "C:min(#############5)", "C:maj(bbbbbbbbbbbbbbbbbbbbbbbbb9)/3", "D:7(############1,*b7)", "C:(3)", "C:(*3)/5",
+             "A:13(3,3)/b7", "A:min11(*b3)/b3", "G:maj(13)", "G:maj(*13)", "G:9(*9)", "G:13(*13,*11)", "F#:(b3,5,b7,9)/9",
+             "C:MAJ", "C:Maj7", "C:maj(3 )", "C:maj( 3)", "C/5/3", "C(3)(5)", "C:maj:min", "C:", "C/", "C:()", "\uff23:maj",
+             "C:maj\u2028", "C:hdim7(*b5)/b5", "E:sus4(b7,9)/4", "Db:minmaj7/7", "C:maj(" + "b" * 40 + "7)", "C" + "#" * 61,
+             "G:(*" + "b" * 50 + "13,5)/" + "#" * 50 + "5"]
+    for s in fixed[shard::nshards]:
+        yield from _gen_label_cases(s, "fixed")
+    n = 2500 if tier == "thorough" else 220
+    for _ in range(n):
+        yield from _gen_label_cases(sample_label(rng), "sample")
+        yield from _gen_label_cases(random_label(rng), "random-deep")
+        s = mutate(rng, random_label(rng) if rng.random() < 0.5 else sample_label(rng))
+        yield from _gen_label_cases(s, "mutated", flags=((rng.random() < 0.5, rng.random() < 0.5),))
+        # long accidental runs on root, degrees and bass (beyond an octave)
+        run = rng.choice("b#") * rng.randint(11, 40)
+        s = rng.choice([rng.choice(LETTERS) + run + rng.choice(["", ":min7", ":(3)"]),
+                        "%s:%s(%s%s%s)" % (rng.choice(ROOTS), rng.choice(SHORTHANDS), rng.choice(["", "*"]), run, rng.choice(NUMS)),
+                        "%s/%s%s" % (rng.choice(ROOTS), run, rng.choice(NUMS)),
+                        "%s:(%s%s)/%s%s" % (rng.choice(ROOTS), run, rng.choice(NUMS), run, rng.choice(NUMS))])
+        yield from _gen_label_cases(s, "long-runs", flags=((rng.random() < 0.5, rng.random() < 0.5),))
+    # join: parts of a real split (recombined in sorted and reversed order), damaged parts, free parts
+    quals = SHORTHANDS + ["", "", "b9", "#11", "maj\n", "Maj", "min "]
+    for _ in range(1500 if tier == "thorough" else 150):
+        k = rng.randrange(4)
+        if k == 0:
+            s = rng.choice([sample_label, random_label])(rng)
+            try:
+                root, q, degs, bass = chord.split(s, reduce_extended_chords=rng.random() < 0.5)
+            except chord.InvalidChordException:
+                continue
+            ext = sorted(degs)
+            if rng.random() < 0.5:
+                ext.reverse()
+        else:
+            root = rng.choice(ROOTS + ["N", "X", "", "H", "C\n"]) if k == 1 else rng.choice(ROOTS)
+            q = rng.choice(quals)
+            ext = [rng.choice(ITEMS + ["", "14", "3 ", "*"]) if k == 1 else rng.choice(ITEMS)
+                   for _ in range(rng.choice([0, 0, 1, 2, 3, 4]))]
+            bass = rng.choice(["", "1", "1", "b1"] + DEGREES + (["0", "5\n", "/5"] if k == 1 else []))
+        yield _gen_join_case(root, q, ext, bass, "split-parts" if k == 0 else "damaged" if k == 1 else "free")
+        if not ext:
+            yield _gen_join_case(root, q, None, bass, "none")
+    # the primitives on table keys and arbitrary strings
+    keys_q = list(chord.QUALITIES.keys())
+    keys_r = list(chord.EXTENDED_QUALITY_REDUX.keys())
+    fixed = sorted(set(keys_q + keys_r + SHORTHANDS + DEGREES + ITEMS + ["", "*", "**3", "*3*", "*b3", "b*3", "14", "0", "*14"]))
+    strings = fixed[shard::nshards] + [_arb_string(rng) for _ in range(1500 if tier == "thorough" else 150)]
+    for s in strings:
+        info = {"string": s}
+        for m in (False, True):
+            for length in (12, rng.choice([12, 1, 2, 5, 7, 13, 24, 0, -1, -5])):
+                yield Case("gen.chordfn", ["scale_degree_to_bitmap", s, m, length],
+                           lambda s=s, m=m, length=length: chord.scale_degree_to_bitmap(s, m, length),
+                           tag="gen scale_degree_to_bitmap" + ("" if length == 12 else ":length"),
+                           info=dict(info, modulo=m, length=length))
+        yield Case("gen.chordfn", ["quality_to_bitmap", s], lambda s=s: chord.quality_to_bitmap(s),
+                   tag="gen quality_to_bitmap", info=info)
+        yield Case("gen.chordfn", ["reduce_extended_quality", s],
+                   lambda s=s: (lambda q, e: [q, sorted(e)])(*chord.reduce_extended_quality(s)),
+                   tag="gen reduce_extended_quality", info=info, post=_post_redux)
+
+
 SUITES = {"re_match": suite_re_match, "rx": suite_rx, "accept": suite_accept, "encode": suite_encode, "join": suite_join, "primitives": suite_primitives,
-          "gen_scalar.primitives": suite_gen_primitives}
+          "gen_scalar.primitives": suite_gen_primitives, "gen_chordfn": suite_gen_chordfn}
 
 
 # ------------------------------------------------------------------------------------------------
@@ -863,7 +968,7 @@ def gen_encode(rng, tier, shard, nshards, boost):
     # every shorthand x {plain, one item}, both flags: the documented bitmaps
     k = 0
     for q in SHORTHANDS:
-        for tail in ["", "(9)", "(*5)", "/b7", "(b3)/5"]:
+        for tail in ["", "(9)", "(*5)", "/b7", "(b3)/5", "(*9)", "(*13,*11)", "(*7)/9"]:
             k += 1
             if k % nshards == shard:
                 for r in (False, True):
@@ -887,16 +992,74 @@ def gen_encode_many(rng, tier, shard, nshards, boost):
         yield {"labels": ls, "reduce": rng.random() < 0.5}
 
 
+def spec_join(root, q, ext, bass):
+    """the documented rendering root[:quality][(e1,...,en)][/bass] of join's arguments (hand-transcribed): the extensions in
+    the order given, the bass omitted when it is the root ('1' or empty)"""
+    exts = list(ext) if ext else []
+    s = root
+    if q or exts:
+        s += ":" + q
+    if exts:
+        s += "(" + ",".join(exts) + ")"
+    if bass and bass != "1":
+        s += "/" + bass
+    return s
+
+
+def check_join(inp):
+    """join(root, quality, extensions, bass) for a LIST of extensions: nothing but InvalidChordException escapes; the
+    result is the documented rendering of the parts when that is a label of the syntax, InvalidChordException otherwise"""
+    root, q, ext, bass = inp["root"], inp["quality"], inp["extensions"], inp["bass"]
+    o = _outcome(lambda: chord.join(root, q, ext, bass))
+    if o[0] == "raised":
+        return "join(%r, %r, %r, %r) raised %s" % (root, q, ext, bass, o[1])
+    want = spec_join(root, q, ext, bass)
+    if grammar(want) is not None:
+        if o != ("ok", want):
+            return "join(%r, %r, %r, %r) = %r but the parts spell the label %r" % (root, q, ext, bass, o, want)
+    elif o[0] != "invalid":
+        return "join(%r, %r, %r, %r) = %r although the parts do not spell a label of the syntax" % (root, q, ext, bass, o)
+    return None
+
+
+def gen_join(rng, tier, shard, nshards, boost):
+    quals = SHORTHANDS + ["", "", "b9", "#11", "Maj", "min "]
+    for root, q, ext, bass in [("C", "maj", ["3", "5"], "5"), ("C", "", ["5", "3"], ""), ("A", "7", ["13", "9", "3", "11"], "b7"),
+                               ("G", "min", ["*b3", "*5", "9", "b13"], "1"), ("N", "", [], ""), ("X", "maj", [], "1"),
+                               ("C", "", None, ""), ("C", "maj", None, "1"), ("D", "13", ["*13", "*11", "*9", "b7", "5"], "3")][shard::nshards]:
+        yield {"root": root, "quality": q, "extensions": ext, "bass": bass}
+    n = (1500 if tier == "thorough" else 200) * boost
+    for _ in range(n):
+        k = rng.randrange(3)
+        if k == 0:          # the parts of a real split, in sorted, reversed or shuffled order
+            s = rng.choice([sample_label, random_label])(rng)
+            try:
+                root, q, degs, bass = chord.split(s, reduce_extended_chords=rng.random() < 0.5)
+            except chord.InvalidChordException:
+                continue
+            ext = sorted(degs)
+            rng.shuffle(ext)
+        else:
+            root = rng.choice(ROOTS + ["N", "X", "", "H"]) if k == 1 else rng.choice(ROOTS)
+            q = rng.choice(quals)
+            ext = [rng.choice(ITEMS + ["", "14", "3 ", "*"]) if k == 1 and rng.random() < 0.3 else rng.choice(ITEMS)
+                   for _ in range(rng.choice([0, 1, 2, 3, 4, 5]))]
+            bass = rng.choice(["", "1", "b1"] + DEGREES + (["0", "/5"] if k == 1 else []))
+        yield {"root": root, "quality": q, "extensions": ext, "bass": bass}
+
+
 CHECKERS = {"chord.validate_chord_label": check_validate, "chord.encode": check_encode,
-            "chord.encode_many": check_encode_many}
+            "chord.encode_many": check_encode_many, "chord.join": check_join}
 ORACLES = {"chord.validate_chord_label": gen_validate, "chord.encode": gen_encode,
-           "chord.encode_many": gen_encode_many}
+           "chord.encode_many": gen_encode_many, "chord.join": gen_join}
 
 
 def classify(suite, d):
     i = d.get("info") or {}
     if "labels" in i:
         return "chord.encode_many", {"labels": i["labels"], "reduce": i.get("reduce", False)}
+    if "root" in i and "extensions" in i:
+        return "chord.join", {"root": i["root"], "quality": i["quality"], "extensions": i["extensions"], "bass": i["bass"]}
     if "label" not in i:
         return None
     if d["op"] in ("chord.accept", "chord.validate", "chord.recognize", "chord.re_match"):
